@@ -23,10 +23,11 @@ CLAIMED["C09"] = ("verif-tun", "DESIGN.md §3 C09",
     "SCION-side data, timer tick} interleaved with a lossy/duplicating/reordering/replaying/mis-delivering datagram network, against the real SnapTunServer and "
     "IdentityRegistry with real WireGuard clients. Oracles: reference registry (one identity per key, one key per identity, expiry strictly after now) agrees with the real "
     "one on every identity around every expiry; every forwarded inbound payload and every client-decryptable outbound payload belongs to an identity authorised at that "
-    "instant, is attributed to the authenticating identity's session, and is never replayed. Evidence, not proof.",
+    "instant, is attributed to the authenticating identity's session, and is never replayed. A fifth of the runs put the IdentityRegistry alone under 2-3 concurrent tasks (register incl. superseding, purge, query) on a pre-emptive deterministic scheduler "
+    "(hook H12: scheduling points at its write lock and state slot); the step-stamped history plus a final read must be linearizable against the reference registry. Evidence, not proof.",
     "Trusted: gotatun's cryptography and its real-clock timers (never fire in millisecond runs); the authorisation seam substitutes the virtual clock for the Instant the server reads itself; "
     "the gateway's socket loop is not simulated.",
-    "deterministic simulation with fault injection (seeded history/fault search against a reference registry model, replayable choice vector, shrinking)")
+    "deterministic simulation with fault injection (seeded history/fault search against a reference registry model; seeded pre-emptive schedules of concurrent registry callers with a linearizability check; replayable choice vector, shrinking)")
 
 MGR_NOTE = ("Built with cargo feature verif-hooks (clock, timer, spawn, lock, hash-seed and jitter calls of the path manager go to the simulator; "
             "the managed-pair index is a model of scc::HashIndex with simulator-chosen reclamation). Trusted: internals of tokio Notify/broadcast, arc_swap; "
@@ -97,7 +98,8 @@ CLAIMED["C14"] = ("verif-net", "DESIGN.md §3 C14",
     "A third of the runs exercise the endhost side instead: the real PathUnawareUdpScionSocket::recv_from loop with the stack's ScmpErrorHandler (and optionally DefaultEchoHandler) over a simulated underlay on the simrt runtime (hook H8): datagrams and SCMP packets of every kind (all five error types, echo request/reply, traceroute, malformed, foreign protocols) "
     "arrive in drawn order, the receiving task is cancelled and restarted, the underlay wakes it spuriously, reply sending fails with WouldBlock/Closed; every datagram is returned exactly once and in order, every SCMP error reaches the registered receiver exactly once, only echo requests are answered (once). "
     "Fault 'reused buffer' (what the SDK's packet-buffer pools hand out): every SCMP packet built by the SDK or the simulator is encoded again by the SDK's encoder into a buffer holding drawn old bytes; the checksum must be valid and the SCMP message identical to the fresh encoding. "
-    "Not covered: UdpScionSocket's path-aware wrapper around that loop, the tunnel gateway's private SCMP builder (its encoder and buffer discipline are exercised by the reused-buffer fault). Evidence, not proof.",
+    "A sixth of the remaining runs exercise the SNAP tunnel gateway (hook H11): a hostile tunnel peer's datagrams (spoofed/non-IP source, unsupported path types, truncations, garbage, bit flips, SCMP errors and malformed SCMP with a spoofed source, up to 9216 B) pass through one gateway packet pool, the gateway's own SCMP builder answers into reused pool buffers; every answer is an SCMP error <= 1232 B with a valid checksum quoting a prefix of the refused datagram, and SCMP errors / malformed SCMP are never answered. "
+    "Not covered: the gateway's serving loop (socket, batching). Evidence, not proof.",
     NET_NOTE, NET_TECH)
 
 NOT_APPLICABLE = {
